@@ -23,10 +23,11 @@ import (
 	"verif/harness/internal/vh"
 	"volcano.sh/volcano/cmd/webhook-manager/app/options"
 	"volcano.sh/volcano/pkg/scheduler/api"
+	schedcache "volcano.sh/volcano/pkg/scheduler/cache"
 	"volcano.sh/volcano/pkg/scheduler/conf"
 	"volcano.sh/volcano/pkg/scheduler/framework"
 	"volcano.sh/volcano/pkg/scheduler/plugins/capacity"
-	"volcano.sh/volcano/pkg/scheduler/uthelper"
+	schedutil "volcano.sh/volcano/pkg/scheduler/util"
 	_ "volcano.sh/volcano/pkg/webhooks/admission/queues/validate"
 	"volcano.sh/volcano/pkg/webhooks/router"
 )
@@ -553,17 +554,44 @@ func capacityReady(qs []qspec) bool {
 	if leaf < 0 {
 		panic("no leaf queue in a finite queue set")
 	}
-	t := &uthelper.TestCommonStruct{Name: "c10", Plugins: map[string]framework.PluginBuilder{"capacity": capacity.New}, Queues: objs}
+	sc := capacityCache()
+	for _, o := range objs {
+		sc.AddQueueV1beta1(o)
+	}
+	defer func() {
+		for _, o := range objs {
+			sc.DeleteQueueV1beta1(o)
+		}
+	}()
 	on := true
 	tiers := []conf.Tier{{Plugins: []conf.PluginOption{{Name: "capacity", EnabledHierarchy: &on, EnabledAllocatable: &on}}}}
-	ssn := t.RegisterSession(tiers, nil)
-	defer t.Close()
+	ssn := framework.OpenSession(sc, tiers, nil)
+	defer framework.CloseSession(ssn)
+	if len(ssn.Queues) != len(objs) {
+		panic(fmt.Sprintf("session shows %d queues, lister %d", len(ssn.Queues), len(objs)))
+	}
 	qi := ssn.Queues[api.QueueID(qname(leaf))]
 	if qi == nil {
 		panic("session lost queue " + qname(leaf))
 	}
 	task := &api.TaskInfo{Name: "probe", Resreq: api.EmptyResource(), InitResreq: api.EmptyResource()}
 	return ssn.Allocatable(qi, task)
+}
+
+// one mock scheduler cache for the whole process (a cache per history leaks its informers):
+// the queues of a history are added before the session is opened and removed afterwards
+var theCache *schedcache.SchedulerCache
+
+func capacityCache() *schedcache.SchedulerCache {
+	if theCache == nil {
+		framework.RegisterPluginBuilder("capacity", capacity.New)
+		theCache = schedcache.NewCustomMockSchedulerCache("c10", schedutil.NewFakeBinder(0), schedutil.NewFakeEvictor(0),
+			&schedutil.FakeStatusUpdater{}, nil, nil)
+		stop := make(chan struct{})
+		theCache.Run(stop)
+		theCache.WaitForCacheSync(stop)
+	}
+	return theCache
 }
 
 const tagCapacity = 901
